@@ -174,8 +174,10 @@ def r1_r2(prog, ev, rep):
         if len(sel) != 1:
             rep.unrecognised("C14-R1", "name/%s" % name, where, "no unique arm"); continue
         body = t.a[1][sel[0][0]][2]
-        if body.k != "match":
-            rep.unrecognised("C14-R1", "%s/arity" % name, where, "no dispatch on the argument slice: %s" % body); continue
+        slice_scrut = body.k == "match" and (body.a[0].k == "call" and body.a[0].a[0].rsplit("::", 1)[-1] in ("as_slice", "deref", "as_ref") or body.a[0].k == "param"
+                                               or any(p.get("k") == "Slice" or (p.get("k") in ("Deref", "DerefPattern") and p.get("sub", {}).get("k") == "Slice") for p, _, _ in body.a[1]))
+        if body.k != "match" or not slice_scrut:
+            rep.unrecognised("C14-R1", "%s/arity" % name, where, "no dispatch on the argument slice: %s" % str(body)[:200]); continue
         # arity: slices of length 0,1,3 -> null ; 2 -> further
         okar = True
         two = None
